@@ -380,31 +380,94 @@ def parse(relpath, prefix, repo=None, ext=False):
     return tu
 
 
+def discover_functions(text):
+    """Names of the functions *defined* in a C source text (brace at column 0 preceded by a parameter list, the layout
+    both C files use; K&R comments between `)` and `{` are skipped).  Used to ask clang for each definition by name, so
+    that static helpers introduced by a refactoring are part of the analysed program."""
+    import re
+    names = []
+    # blank out comments and string literals (keeping offsets) so that braces/parentheses inside them do not count
+    def blank(m):
+        return re.sub(r"[^\n]", " ", m.group(0))
+    clean = re.sub(r"/\*.*?\*/|//[^\n]*|\"(?:\\.|[^\"\\\n])*\"", blank, text, flags=re.S)
+    for m in re.finditer(r"^\{", clean, flags=re.M):
+        i = m.start() - 1
+        while i >= 0 and clean[i] in " \t\r\n":
+            i -= 1
+        if i < 0 or clean[i] != ")":
+            continue
+        depth = 0
+        while i >= 0:
+            if clean[i] == ")":
+                depth += 1
+            elif clean[i] == "(":
+                depth -= 1
+                if depth == 0:
+                    break
+            i -= 1
+        j = i - 1
+        while j >= 0 and clean[j] in " \t\r\n":
+            j -= 1
+        k = j
+        while k >= 0 and (clean[k].isalnum() or clean[k] == "_"):
+            k -= 1
+        name = clean[k + 1:j + 1]
+        if name and not name[0].isdigit() and name not in ("if", "while", "for", "switch") and name not in names:
+            names.append(name)
+    return names
+
+
+def parse_all(relpath, repo=None, ext=False):
+    """All function definitions of one C file (one filtered clang dump per discovered name, in parallel, cached)."""
+    from concurrent.futures import ThreadPoolExecutor
+    repo = repo or REPO
+    path = os.path.join(repo, relpath)
+    if not os.path.exists(path):
+        raise AnalysisError("source file %s not found" % path)
+    with open(path, "r", encoding="utf-8", errors="replace") as f:
+        text = f.read()
+    names = discover_functions(text)
+    if not names:
+        raise AnalysisError("no function definitions discovered in %s" % relpath)
+    key = (repo, relpath, hashlib.sha256(text.encode()).hexdigest())
+    if key in _ALL:
+        return _ALL[key]
+    def one(n):
+        try:
+            return parse(relpath, n, repo, ext)
+        except AnalysisError as e:
+            if "no function definitions matching" in str(e):
+                return None  # a macro that expands to a definition (MOD_INIT(name)): found under its real name or skipped
+            raise
+    with ThreadPoolExecutor(max_workers=16) as ex:
+        tus = [t for t in ex.map(one, names) if t is not None]
+    if not tus:
+        raise AnalysisError("clang returned no function definition for %s" % relpath)
+    m = TU.__new__(TU)
+    m.relpath = relpath
+    m.text = tus[0].text
+    m._starts = tus[0]._starts
+    m.functions = {}
+    m.protos = {}
+    m.records = {}
+    m.vars = {}
+    for t in tus:
+        for k, v in t.functions.items():
+            m.functions.setdefault(k, v)
+        for k, v in t.protos.items():
+            m.protos.setdefault(k, v)
+        m.records.update(t.records)
+        m.vars.update(t.vars)
+    _ALL[key] = m
+    return m
+
+
+_ALL = {}
+
+
 def lib(repo=None):
-    return parse("c/lib/rf_write_hdf5.c", "digital_rf_", repo)
-
-
-_EXT = {}
+    return parse_all("c/lib/rf_write_hdf5.c", repo)
 
 
 def ext(repo=None):
-    """The extension module: two filtered dumps (wrapper functions + the dtype helper) merged."""
-    repo = repo or REPO
-    a = parse("python/lib/py_rf_write_hdf5.c", "_py_rf_write_hdf5", repo, ext=True)
-    b = parse("python/lib/py_rf_write_hdf5.c", "get_hdf5_data_type", repo, ext=True)
-    c = parse("python/lib/py_rf_write_hdf5.c", "free_py_rf_write_hdf5", repo, ext=True)
-    k = (id(a), id(b), id(c))
-    if k not in _EXT:
-        m = TU.__new__(TU)
-        m.relpath = a.relpath
-        m.text = a.text
-        m._starts = a._starts
-        m.functions = dict(a.functions)
-        m.functions.update(b.functions)
-        m.functions.update(c.functions)
-        m.protos = dict(a.protos)
-        m.records = dict(a.records)
-        m.vars = dict(a.vars)
-        m.vars.update(b.vars)
-        _EXT[k] = m
-    return _EXT[k]
+    return parse_all("python/lib/py_rf_write_hdf5.c", repo, ext=True)
